@@ -18,7 +18,8 @@
    current code (3c979ee); see Model.v.
    [requests_only] = no manual reset / clear_cache in the history,
    [monotone] = the clock never goes back,
-   [probe_state c s] = HALF_OPEN, or OPEN with now - last_failure >= timeout. *)
+   [probe_state c s] = HALF_OPEN, or OPEN with now - last_failure >= timeout.
+   Histories in which requests overlap: second half of the file. *)
 From Coq Require Import ZArith List Bool.
 From Verif Require Import C08.Model C08.Proofs gen.Gen_C08 C08.GenOk.
 Import ListNotations.
@@ -163,6 +164,94 @@ Theorem c08_trace_is_run_ops :
      flat_map (fun x => match snd x with Some r => [r] | None => [] end) (trace c s ops)).
 Proof. exact trace_run_ops. Qed.
 Print Assumptions c08_trace_is_run_ops.
+
+(* ====================================================================== *)
+(* Requests that OVERLAP on the loop.  run() holds its lock only inside the breaker / cache methods, so a request
+   may be admitted while another is still inside an agent.  Vocabulary (Model.v, Proofs.v): a history is a list of
+   [cop] = [Seq op | Begin id request place | End id]: [Begin] takes a request from its arrival into the executor
+   or the assessor ([place]) where it stays suspended, [End] lets it go on to its answer at the clock value and on
+   the breaker of THAT moment; [crun c (s, fl) ops] is the state, the requests still in flight and the answers
+   (tagged [true] when the request ran from arrival to answer within one operation, [false] for the answer of a
+   request that had been suspended) in the order in which they were given.  The theorems above are about the
+   histories without [Begin]/[End] (c08_overlap_sequential_histories); the ones below hold for all of them. *)
+
+Theorem c08_overlap_invariant_reachable :
+  forall c ops s' fl' rs, crun c (init, []) ops = ((s', fl'), rs) -> inv c s'.
+Proof. exact overlap_inv_reachable_proof. Qed.
+Print Assumptions c08_overlap_invariant_reachable.
+
+(* never open before the failure threshold has been reached in total: c08_open_implies_threshold_reached for
+   histories with any number of requests in flight (failed answers are counted when they are given) *)
+Theorem c08_overlap_open_implies_threshold_reached :
+  forall c s fl ops s' fl' rs,
+    interim c = false ->
+    circ (br s) = Closed -> fcount (br s) = 0 ->
+    crun c (s, fl) ops = ((s', fl'), rs) ->
+    (circ (br s') <> Closed ->
+       threshold c <= count_failures (map snd rs) /\ threshold c <= fcount (br s') /\
+       last_failure (br s') <> None) /\
+    (trips (br s) < trips (br s') -> threshold c <= count_failures (map snd rs)).
+Proof. exact overlap_open_implies_threshold_proof. Qed.
+Print Assumptions c08_overlap_open_implies_threshold_reached.
+
+(* While OPEN, up to a moment less than the recovery timeout after the last failure, with requests that were
+   admitted earlier still in flight ([fl]) and answered meanwhile in any order and with any outcome: every request
+   that ARRIVES is answered CIRCUIT_OPEN; the breaker stays OPEN, its failure count does not go down (no success
+   of a straggler closes it or clears it), a failed straggler only moves last_failure later (restarting the
+   timeout); the executor is never invoked and no request gets in flight; the assessor is invoked and energy is
+   spent only on behalf of requests that were already inside the executor - at most once each. *)
+Theorem c08_overlap_open_isolates :
+  forall c ops s fl lf s' fl' rs,
+    enabled c = true -> circ (br s) = Open -> last_failure (br s) = Some lf -> lf <= now s ->
+    crequests_only ops -> cmonotone ops -> fl_monotone fl ->
+    crun c (s, fl) ops = ((s', fl'), rs) -> now s' - lf < timeout c ->
+    Forall (fun x => fst x = true -> snd x = res_circuit_open) rs /\
+    circ (br s') = Open /\
+    (exists lf', last_failure (br s') = Some lf' /\ lf <= lf' /\ lf' <= now s') /\
+    fcount (br s) <= fcount (br s') /\ trips (br s') = trips (br s) /\ zcalls s' = zcalls s /\
+    (length fl' <= length fl)%nat /\
+    0 <= ycalls s' - ycalls s <= Z.of_nat (length fl) - Z.of_nat (length fl') /\
+    spent s' = spent s + cost c * (ycalls s' - ycalls s).
+Proof. exact overlap_open_isolates_proof. Qed.
+Print Assumptions c08_overlap_open_isolates.
+
+(* The isolation ends in two ways only.  Any one operation from OPEN - whatever is in flight - leaves the breaker
+   OPEN with a failure count that has not gone down and the same trip count, unless it is a manual reset, or a
+   request that ARRIVES (breaker enabled) once the recovery timeout has elapsed since the last failure.  The
+   answer of a request that had been admitted earlier ([End]) is neither. *)
+Theorem c08_open_left_only_by_probe_or_reset :
+  forall c s fl o s' fl' r,
+    circ (br s) = Open -> cstep c (s, fl) o = ((s', fl'), r) ->
+    (circ (br s') = Open /\ fcount (br s) <= fcount (br s') /\ trips (br s') = trips (br s)) \/
+    o = Seq Reset \/
+    (arrival o /\ enabled c = true /\ probe_state c s).
+Proof. exact open_left_only_proof. Qed.
+Print Assumptions c08_open_left_only_by_probe_or_reset.
+
+(* a history without Begin/End is the sequential history, and a request begun and ended at once is the request
+   run in one piece: the theorems about [run_ops] / [run_req] are theorems about [crun] *)
+Theorem c08_overlap_sequential_histories :
+  forall c ops s fl,
+    crun c (s, fl) (map Seq ops) =
+    let '(s', rs) := run_ops c s ops in ((s', fl), map (pair true) rs).
+Proof. exact crun_seq. Qed.
+Print Assumptions c08_overlap_sequential_histories.
+
+Theorem c08_overlap_begin_end_is_run :
+  forall c s fl id r w s' res,
+    fly_lookup id fl = None -> run_req c s r = (s', res) ->
+    exists tag, crun c (s, fl) [Begin id r w; End id] = ((s', fl), [(tag, res)]).
+Proof. exact begin_end_is_run. Qed.
+Print Assumptions c08_overlap_begin_end_is_run.
+
+(* the history the correspondence check observes ([run_case] maps [ctrace]) is the one these theorems speak about *)
+Theorem c08_ctrace_is_crun :
+  forall c ops cs,
+    crun c cs ops =
+    (last (map (fun x => snd (fst x)) (ctrace c cs ops)) cs,
+     flat_map (fun x => match snd x with Some r => [r] | None => [] end) (ctrace c cs ops)).
+Proof. exact ctrace_crun. Qed.
+Print Assumptions c08_ctrace_is_crun.
 
 (* ====================================================================== *)
 (* The breaker automaton of the model is the code.  gen/Gen_C08.v is regenerated from operon_ai/topology/loops.py
